@@ -72,6 +72,7 @@ class Drv:
         self.recs: list[Rec] = []
         self.error: BaseException | None = None
         self.upgraded = False
+        self._tunnel = False
         self.tail = b""
         self.eof_msg = None
         self.drain = drain
@@ -83,9 +84,10 @@ class Drv:
     def _feed(self, data):
         if self.error is not None:
             return
-        if self.upgraded and data and self.parser._payload_parser is None:
-            # protocol switched: later bytes are not HTTP (a CONNECT tunnel keeps
-            # its payload parser and goes on through feed_data)
+        if self.upgraded and data and (self.parser._payload_parser is None or not self._tunnel):
+            # protocol switched: later bytes are not HTTP - the server protocol stops feeding the parser the
+            # moment it reports `upgraded`, whatever the parser still expects (only a CONNECT tunnel keeps its
+            # payload parser and goes on through feed_data here)
             self.tail += data
             return
         try:
@@ -95,6 +97,7 @@ class Drv:
             return
         for m, p in msgs:
             self.recs.append(Rec(m, p))
+            self._tunnel = getattr(m, "method", None) == "CONNECT"
         if upgraded:
             self.upgraded = True
             self.proto._upgraded = True
